@@ -22,7 +22,7 @@ import sys
 import threading
 
 from vf import cachecmp, gencache
-from vf.worker import exc_sig
+from vf.worker import exc_sig, safe_garbage
 
 LEVEL = "fault_enumeration"
 RULE = ("per generated model: crash of the cache write after n bytes for n in {0, 1, every write-call boundary, "
@@ -226,7 +226,7 @@ def one_model(ctx, rng, k):
             if kind == "truncated":
                 data, cls = B[:n], offset_class(n, L)
             elif kind == "garbage":
-                data, cls = bytes(rng.randrange(256) for _ in range(min(L, 2000))), "random-bytes"
+                data, cls = safe_garbage(rng, min(L, 2000)), "random-bytes"
             elif kind == "garbage-tail":
                 data, cls = B + bytes(rng.randrange(256) for _ in range(50)), "complete-plus-tail"
             else:
